@@ -32,19 +32,19 @@ T = {
  "C07": ("explicit-state BFS over reachable molecular states with the engine's random draws owned by the harness (all u of a finite grid in every state) + per-step legality on seed-enumerated runs",
          "With the probe build every uniform draw is supplied by the harness, so the Gillespie engine is a deterministic labelled transition system; in every reachable state of small systems every u of a grid is applied on the real engine and each transition is checked for legality and each effect's u-measure against its CME probability; tau-leap Poisson means are read from the probe log.",
          "libstdc++ mt19937 / poisson_distribution are trusted; u-grid resolution bounds the measure error ((B+1)/M); state-space bounds", "3/C07"),
- "C08": ("exhaustive enumeration of driver schedules (iterate / iterate_n / run slices under a scripted clock) and of process histories; bit-identity with a baseline execution",
+ "C08": ("exhaustive enumeration of driver schedules (iterate / iterate_n / run slices under a scripted clock) and of process histories, of in-place edits of script / stored-script / trajectory objects and of the simulate() wrapper's keyword forms; bit-identity with a baseline execution in a pristine process",
          "Every partition of the iteration sequence into driver calls up to the bound, including run() slices whose end is decided by the harness-owned clock, and every ordered pair of (previous simulation, this simulation) is executed on the real engine and compared bit-for-bit with the one-iterate-at-a-time baseline.",
          "bounded iteration counts; clock owned through the probe build (blind probe => only 1-iteration and to-completion slices)", "3/C08"),
  "C09": ("exhaustive enumeration of request lists on an exact time lattice x t_max x policies x engines; reference sampling contract evaluated on the implementation's own step sequence",
          "All non-decreasing request lists up to the bound over an exactly representable lattice are run on the real engines; the set of recorded steps must lie between the required and the allowed sets of the reference contract, with exact layout checks.",
          "step times taken from the implementation's per-iteration run; lattice chosen so threshold comparisons are exact", "3/C09"),
- "C10": ("explicit-state exploration (stateless BFS) of all lifecycle-respecting call histories up to a depth over one and two engine objects; differential oracle against the canonical history of each abstract state",
+ "C10": ("explicit-state exploration (stateless BFS) of all lifecycle-respecting call histories up to a depth over one and two engine objects (incl. object-lifetime operations, set-ups alternating between space types, engine factories) plus a TLA+ model of the lifecycle explored by TLC whose every path is replayed on the engine; differential oracle against the canonical history of each abstract state",
          "Every history over {setup, setup', iterate, iterate_n, sample, finalize} up to the depth bound is executed on real engine objects under a supervisor (hang/crash attribution); after every operation all observers are compared with those of the canonical history of the object's abstract state run in isolation.",
          "reference lifecycle model (A.5); depth bounds; script catalogue", "3/C10"),
  "C11": ("the C10 history exploration and a shape catalogue enumeration executed on an ASan+UBSan+hardened-libstdc++ build of the working tree; any report or plain/sanitized output difference is a violation",
          "Every enumerated script shape and lifecycle history runs on the sanitized engine in supervised workers; memory errors, UB and library-precondition violations abort and are attributed to the case.",
          "sanitizers see only executed accesses; bounded shape catalogue", "3/C11"),
- "C12": ("bounded-exhaustive enumeration of object shapes x unit systems per level x routes (dict, JSON, files, multi-file) with physical-equality oracle; every alias and optional key one at a time",
+ "C12": ("bounded-exhaustive enumeration of object shapes x unit systems per level x routes (dict, JSON, files, multi-file) with physical-equality oracle; every alias and optional key one at a time; file-name, text-array-layout and process-history sub-spaces",
          "Each catalogue object is round-tripped through every route on the real readers/writers and compared in SI; to_dict fix-point; alias and default substitutions enumerated completely.",
          "physical equality model (A.7); only unambiguously documented defaults are claimed", "3/C12"),
  "C13": ("bounded-exhaustive enumeration of networks x spaces x unit systems per level and of all (species, cell) entries; all set/get sequences of length <= 2 with frame condition",
